@@ -155,6 +155,29 @@ func EncodeHighLevel(msg string, shape SymbolShapeHint, minSize, maxSize *gozxin
 }
 
 func HighLevelEncoder_lookAheadTest(msg []byte, startpos, currentMode int) int {
+	newMode := lookAheadTest(msg, startpos, currentMode)
+	// The X12 and EDIFACT encoders take groups of three / four characters without another look-ahead:
+	// go (or stay) there only if they can encode the whole next group.
+	if newMode == HighLevelEncoder_X12_ENCODATION && !nextAre(msg, startpos, 3, isNativeX12) {
+		return HighLevelEncoder_ASCII_ENCODATION
+	}
+	if newMode == HighLevelEncoder_EDIFACT_ENCODATION && !nextAre(msg, startpos, 4, isNativeEDIFACT) {
+		return HighLevelEncoder_ASCII_ENCODATION
+	}
+	return newMode
+}
+
+// nextAre tells whether the next n characters (or all the remaining ones if fewer) satisfy is.
+func nextAre(msg []byte, startpos, n int, is func(byte) bool) bool {
+	for i := startpos; i < startpos+n && i < len(msg); i++ {
+		if !is(msg[i]) {
+			return false
+		}
+	}
+	return true
+}
+
+func lookAheadTest(msg []byte, startpos, currentMode int) int {
 	if startpos >= len(msg) {
 		return currentMode
 	}
